@@ -877,7 +877,7 @@ pub fn fuzz_one(text: &str, inputs: &str) -> Outcome {
         return Ok(());
     }
     static KNOWN: std::sync::OnceLock<crate::engine::KnownFile> = std::sync::OnceLock::new();
-    let known = KNOWN.get_or_init(|| crate::engine::load_known("/verif/known_findings.json"));
+    let known = KNOWN.get_or_init(|| crate::engine::load_known(concat!(env!("CARGO_MANIFEST_DIR"), "/../known_findings.json")));
     let mut ctx = Ctx::new("C01", crate::engine::Tier::Quick, 1, 0, 1, 0, 1.0, crate::engine::Mode::Search, known, None, None);
     run_pipeline(text, inputs, &mut ctx).map(|_| ())
 }
